@@ -88,18 +88,21 @@ func Dot(spec *Spec, w io.WriteCloser, fromNode, toNode string) error {
 		style := "filled"
 		if n.Action != nil || n.ActionSource != nil {
 			shape = "note"
-			var src string
-			x := n.ActionSource.Source
-			if s, is := x.(string); is {
-				src = s
-			} else {
-				src = fmt.Sprintf("%#v", x)
+			// A native action (say a FuncAction) has no source.
+			if n.ActionSource != nil {
+				var src string
+				x := n.ActionSource.Source
+				if s, is := x.(string); is {
+					src = s
+				} else {
+					src = fmt.Sprintf("%#v", x)
+				}
+				src = strings.Replace(src, "<", `&lt;`, -1)
+				src = strings.Replace(src, ">", `&gt;`, -1)
+				label += `<FONT POINT-SIZE="6">` +
+					`<BR/>` + strings.Replace(string(src)+"\n", "\n", `<BR ALIGN="LEFT"/>`, -1) + `<BR/>` +
+					`</FONT>`
 			}
-			src = strings.Replace(src, "<", `&lt;`, -1)
-			src = strings.Replace(src, ">", `&gt;`, -1)
-			label += `<FONT POINT-SIZE="6">` +
-				`<BR/>` + strings.Replace(string(src)+"\n", "\n", `<BR ALIGN="LEFT"/>`, -1) + `<BR/>` +
-				`</FONT>`
 		}
 		if toNode == name {
 			color = "red"
